@@ -87,7 +87,15 @@ func perIterationMust(sites []ssa.Instruction) bool {
 	}
 	// body entries: successors of the header that are inside the loop (can reach the header again)
 	for _, s := range h.Succs {
-		if !blockReaches(s, h) {
+		// (membership of the natural loop of h: s reaches a back-edge source without passing
+		// h - the exit of an inner loop reaches h again only through the enclosing loop)
+		inBody := false
+		for _, p := range h.Preds {
+			if h.Dominates(p) && (s == p || reachesAvoiding(s, p, h)) {
+				inBody = true
+			}
+		}
+		if !inBody {
 			continue
 		}
 		if !mustPassFrom(fn, s, func(i ssa.Instruction) bool { return set[i] }, func(b *ssa.BasicBlock) bool { return b == h }) {
@@ -304,6 +312,11 @@ func (cx *Ctx) c18Provenance(r *Report, set hev, where string, oracle bool) {
 		}
 		if t.Op == "call" && (strings.HasPrefix(t.Name, "out:codec.") || strings.HasPrefix(t.Name, "random/keeper.Keeper.GetOracleRandRequest")) {
 			return // the stored request record itself: its fields (consumer) are the requester's data
+		}
+		if t.Op == "index" && len(t.Args) > 0 && t.Args[0].Op == "alloc" && strings.HasPrefix(t.Args[0].Name, "map") && bad == "" {
+			// a value looked up in a map the handler fills as it goes (a memo keyed by tx hash,
+			// height, ...): it was computed for ANOTHER request, from that request's inputs
+			bad = "a value carried over from another request in a local map (" + trunc(t.LooseString(), 80) + ")"
 		}
 		if t.Op == "call" && cx.c18RequestReader(t) {
 			return // a read-only getter of the request stores: the stored request record again
